@@ -386,6 +386,16 @@ func buildDecoders() {
 	aryDec[pk.Int]("Ary[Int][]Byte", 'i', mkBytes, lFixed(1), u32(0), cat(u32(2), []byte{1, 2}))
 	aryDec[pk.Long]("Ary[Long][]Byte", 'q', mkBytes, lFixed(1), u64(0), cat(u64(2), []byte{1, 2}))
 
+	vecLay := lArray('v', "array-count", 1, lVarInt)
+	aryDec[pk.VarInt]("Ary[VarInt][]Ary[VarInt][]VarInt", 'v', func() any { var s []vecVarInt; return &s }, vecLay,
+		vi(0), cat(vi(2), vi(1), vi(7), vi(2), vi(300), vi(-1)))
+	leafDec[pk.Option[vecVarInt, *vecVarInt]]("Option[Ary[VarInt][]VarInt]", lOption(vecLay), []byte{0}, cat([]byte{1}, vi(2), vi(1), vi(2)))
+	add(&Decoder{Name: "Tuple{Boolean,Opt{func,func}}", Lay: lOption(lByteArray), Valids: [][]byte{{0}, cat([]byte{1}, barr([]byte{1, 2}))}, Run: func(r io.Reader) error {
+		var has pk.Boolean
+		var b pk.ByteArray
+		_, err := pk.Tuple{&has, pk.Opt{Has: func() bool { return bool(has) }, Field: func() pk.FieldDecoder { return &b }}}.ReadFrom(r)
+		return err
+	}})
 	leafDec[pk.Option[pk.String, *pk.String]]("Option[String]", lOption(lString), []byte{0}, cat([]byte{1}, str("a")))
 	leafDec[pk.Option[pk.VarInt, *pk.VarInt]]("Option[VarInt]", lOption(lVarInt), []byte{0}, cat([]byte{1}, vi(300)))
 	leafDec[pk.OptionDecoder[pk.ByteArray, *pk.ByteArray]]("OptionDecoder[ByteArray]", lOption(lByteArray), []byte{0}, cat([]byte{1}, barr([]byte{7})))
@@ -559,6 +569,8 @@ func buildDecoders() {
 			ch.Wrong = append(ch.Wrong, chunkEnc(k, h, chunkData(secs, 1), 0), chunkEnc(h, k, chunkData(secs, 1), 0), chunkEnc(k, k, chunkData(secs, 3), 1))
 		}
 		ch.Wrong = append(ch.Wrong, chunkEnc(h+1, -1, chunkData(secs, 1), 0), chunkEnc(-1, 0, chunkData(secs, 1), 0))
+		// the smallest body that reaches the height-map assembly: one empty height map, no sections, no light
+		ch.Wrong = append(ch.Wrong, cat(nbtNet(nComp(kv{"MOTION_BLOCKING", nArr(refnbt.LongArray)})), barr(nil), vi(0), bset(), bset(), bset(), bset(), vi(0), vi(0)))
 		add(ch)
 	}
 
@@ -727,6 +739,14 @@ func buildDecoders() {
 		}
 		return true
 	}, vi(0), cat(vi(1), vi(5), vi(0), vi(0)))
+}
+
+// vecVarInt: an "Array of VarInt" as a field type of its own, so that it can nest under Ary and Option.
+type vecVarInt []pk.VarInt
+
+func (v vecVarInt) WriteTo(w io.Writer) (int64, error) { return pk.Array([]pk.VarInt(v)).WriteTo(w) }
+func (v *vecVarInt) ReadFrom(r io.Reader) (int64, error) {
+	return pk.Array((*[]pk.VarInt)(v)).ReadFrom(r)
 }
 
 func itoa(n int) string {
